@@ -31,6 +31,7 @@ else
   for p in "$@"; do
     echo "=== $p (harness path) with $PATCH"
     if [ $GEN = 1 ]; then NB=""; export VERIF_REPO="$D/w"; else NB="--no-build"; fi
+    export VERIF_EVIDENCE_DIR="$D/evidence"     # the committed evidence of the real tree is not overwritten
     VERIF_SRC="$D/w/src" ./check "$p" --tier quick $NB 2>&1 | grep -E "^\[|VIOLATION|KNOWN-FINDING|broken|disagreement" | cut -c1-400 | head -12
   done
 fi
